@@ -287,12 +287,33 @@ def gen_scenarios(sc, inst, v, tier):
     return pyinst, out
 
 
+def batch_of(inst):
+    import re
+    m = re.search(r"Batch = (\d+)", INST[inst][0])
+    return int(m.group(1)) if m else 4
+
+
+def binary_for(sc, binp, inst):
+    """instances whose model takes small batches out of the inbox run on a build whose messageBatchSize is that batch
+    (the constant is rewritten in a copy of actor/inbox.go added through the overlay)"""
+    b = batch_of(inst)
+    if b >= 4:          # as large as any backlog of the instance: the code's own constant behaves the same
+        return binp
+    import overlay
+    shim, rep = overlay.shim_file(sc, "actor/inbox.go", [], consts={"messageBatchSize": str(b)}, tag="b%d_" % b)
+    if "messageBatchSize" not in (rep.get("consts") or []):
+        raise vlib.Broken("constant messageBatchSize not found in actor/inbox.go")
+    ov = overlay.write_overlay(sc, "ov_batch%d.json" % b, {"actor/inbox.go": shim})
+    return vlib.go_build(sc, "./cmd/actorscen", "actorscen_b%d" % b, overlay=ov)
+
+
 def do_instance(binp, prop, tier, inst):
     """everything for one instance in its own scratch directory (instances run in parallel)"""
     sc = vlib.Scratch("%s-%s" % (prop, inst))
     out = {"inst": inst, "tlc": [], "cov": None, "sample": None, "violations": [], "kf": set(), "nonconf": [], "broken": None}
     try:
         v = _Collector(out)
+        binp = binary_for(sc, binp, inst)
         pyinst, scen = gen_scenarios(sc, inst, v, tier)
         spath = sc.path("scen_%s.ndjson" % inst)
         with open(spath, "w") as f:
@@ -325,6 +346,8 @@ def do_instance(binp, prop, tier, inst):
             order.append(s)
         out["cov"] = {"instance": inst, "scenarios": len(scen), "ran": len(records), "conformant": nconf,
                       "nonconformant": ndiv, "racy_diverged": nracy, "process_deaths": len(crashed)}
+        if crashed:
+            out["cov"]["process_death_stderr"] = [{"scenario": k, "stderr_head": err[:1200]} for k, err in crashed[:2]]
         if scen:
             out["sample"] = {"instance": inst, "scenario": scen[0][0]["steps"]}
         # containment: the hosting process must survive every scenario
